@@ -223,6 +223,15 @@ func init() {
 		}
 		return nil
 	}
+	I[apiP+"GoLow"] = func(t *Thread, fn *ssa.Function, a []Value) Value {
+		fv, _ := a[0].(*FuncVal)
+		if fv == nil {
+			rtPanic("GoLow(nil)")
+		}
+		th := t.ex.newThread(fv, nil, "low-priority "+fv.Fn.String())
+		th.low = true
+		return nil
+	}
 	I[apiP+"Yield"] = func(t *Thread, fn *ssa.Function, a []Value) Value { t.visible(); return nil }
 	I[apiP+"Blocked"] = func(t *Thread, fn *ssa.Function, a []Value) Value {
 		for _, o := range t.ex.threads {
